@@ -1,7 +1,7 @@
 (** Canonical text rendering of model results and parsing of case lines, in Gallina, so that the extracted
     driver and the in-Coq replay ([Eval vm_compute]) print exactly the same lines as the Rust oracle. *)
-From Pakhi Require Import Base Float64 Syntax.
-Open Scope N_scope.
+From Pakhi Require Import Base Float64 Syntax Interp.
+Local Open Scope N_scope.
 
 Definition sp : N := 32.
 Definition str (l : list N) : text := l.
@@ -146,3 +146,55 @@ Definition show_stmt (s : fstmt) : text :=
   end.
 
 Definition show_program (ss : list fstmt) : text := [111;107;32] ++ join [sp] (map show_stmt ss).
+
+(** Run results *)
+
+Definition show_chunk (c : chunk) : text :=
+  match c with CPrint s => [112;58] ++ enc_text s | CPrintln s => [108;58] ++ enc_text s end.
+Definition show_out (out_newest_first : list chunk) : text :=
+  [111;117;116;32] ++ join [sp] (map show_chunk (rev out_newest_first)).
+
+Fixpoint text_ltb (a b : text) : bool :=
+  match a, b with
+  | [], [] => false
+  | [], _ :: _ => true
+  | _ :: _, [] => false
+  | x :: a', y :: b' => if x <? y then true else if y <? x then false else text_ltb a' b'
+  end.
+Fixpoint insert_sorted {A} (k : text) (v : A) (l : list (text * A)) : list (text * A) :=
+  match l with
+  | [] => [(k, v)]
+  | (k', v') :: r => if text_ltb k k' then (k, v) :: l else (k', v') :: insert_sorted k v r
+  end.
+Definition sort_entries {A} (l : list (text * A)) : list (text * A) :=
+  fold_left (fun acc kv => insert_sorted (fst kv) (snd kv) acc) l [].
+
+Definition show_value (v : value) : text :=
+  match v with
+  | VNum x => [78] ++ show_bits x
+  | VBool b => [66; if b then 49 else 48]
+  | VStr s => [83] ++ enc_text s
+  | VList a => [76] ++ show_nat a
+  | VRec a => [82] ++ show_nat a
+  | VFun st ps => [70] ++ show_nat st ++ [40] ++ join [59] (map enc_text ps) ++ [41]
+  | VNil => [90]
+  end.
+Definition show_entries (l : list (text * value)) : text :=
+  [123] ++ join [sp] (map (fun kv => enc_text (fst kv) ++ [61] ++ show_value (snd kv)) (sort_entries l)) ++ [125].
+Definition show_nats (l : list nat) : text := [91] ++ join [sp] (map show_nat l) ++ [93].
+
+(* same text as verif_hooks::dump_state; scopes outermost first, free lists in Vec order *)
+Definition show_state (scopes : list scope) (h : heap) : text :=
+  [115;99;111;112;101;115;61;91] ++ join [sp] (map show_entries (rev scopes)) ++
+  [93;32;108;105;115;116;115;61;91] ++ join [sp] (map (fun l => [91] ++ join [sp] (map show_value l) ++ [93]) (h_lists h)) ++
+  [93;32;102;114;101;101;95;108;105;115;116;115;61] ++ show_nats (rev (h_free_lists h)) ++
+  [32;114;101;99;115;61;91] ++ join [sp] (map show_entries (h_recs h)) ++
+  [93;32;102;114;101;101;95;114;101;99;115;61] ++ show_nats (rev (h_free_recs h)) ++
+  [32;97;108;108;111;99;61] ++ show_nat (h_alloc h).
+
+Definition show_fsnode (kv : text * fsnode) : text :=
+  match snd kv with
+  | FsDir => [68;58] ++ enc_text (fst kv)
+  | FsFile c => [70;58] ++ enc_text (fst kv) ++ [58] ++ enc_text c
+  | FsBinary => [70;58] ++ enc_text (fst kv) ++ [58;66;73;78]
+  end.
